@@ -139,7 +139,8 @@ def get_instance_tracker(instances_file_input=None, graph_file_input=None,
                                       url_input=url_input,
                                       graph_format=input_format,
                                       built_remote_graph=built_remote_graph,
-                                      disable_endpoint_cache=disable_endpoint_cache)
+                                      disable_endpoint_cache=disable_endpoint_cache,
+                                      rdflib_graph=rdflib_graph)
         valid_shape_map = built_shape_map
         if built_shape_map is None:
             shape_map_parser = get_shape_map_parser(format=shape_map_format,
@@ -172,12 +173,13 @@ def get_instance_tracker(instances_file_input=None, graph_file_input=None,
 
 
 def _get_adequate_sgraph(endpoint_url, graph_file_input, url_input, graph_format,
-                         raw_graph, built_remote_graph, disable_endpoint_cache):
+                         raw_graph, built_remote_graph, disable_endpoint_cache, rdflib_graph=None):
     if endpoint_url is not None:
         return built_remote_graph if built_remote_graph is not None else EndpointSGraph(endpoint_url=endpoint_url,
                                                                                         store_locally=not disable_endpoint_cache)
     else:
-        return RdflibSgraph(source_file=graph_file_input if graph_file_input is not None else url_input,
+        return RdflibSgraph(rdflib_graph=rdflib_graph,
+                            source_file=graph_file_input if graph_file_input is not None else url_input,
                             raw_graph=raw_graph,
                             format=graph_format)
 
